@@ -99,7 +99,10 @@ def calibrate(ops, scratch):
         counts[m.group(1)] += 1
         recs.append((m.group(1), counts[m.group(1)], m.group(2)))
     os.remove(tf)
-    start = max(i for i, r in enumerate(recs) if r[0] == "openat" and ".tmp\"" in r[2])
+    # the system calls of the disturbed AtomicCreate: from the open of its temporary file — or, for an implementation without one, from
+    # its last creating open (the disturbances then hit whatever it does instead, and the all-or-nothing judgement is the same)
+    start = max((i for i, r in enumerate(recs) if r[0] == "openat" and ".tmp\"" in r[2]),
+                default=max((i for i, r in enumerate(recs) if r[0] == "openat" and "O_CREAT" in r[2]), default=0))
     calls = []
     for r in recs[start:]:
         calls.append((r[0], r[1]))
@@ -182,7 +185,10 @@ def check(ctx):
             recs = [(m.group(1), m.group(2)) for m in (REC.match(l) for l in open(tf)) if m]
             os.remove(tf)
             shutil.rmtree(os.path.join(scratch, "fsroot-dir"), ignore_errors=True)
-            st = max(i for i, r in enumerate(recs) if r[0] == "openat" and ".tmp\"" in r[1])
+            # (no temporary file at all — the destination opened and written in place — is judged below like any other order in
+            #  which the name is visible before the data is flushed: the calls are then taken from the open of the destination)
+            st = max((i for i, r in enumerate(recs) if r[0] == "openat" and ".tmp\"" in r[1]),
+                     default=max((i for i, r in enumerate(recs) if r[0] == "openat" and "d1/a\"" in r[1]), default=0))
             seq = [r[0] for r in recs[st:]]
             seq = seq[: seq.index("close") + 1] if "close" in seq else seq      # the call ends with the deferred close of the temporary file
             stats["syscall_order_checks"] += 1
